@@ -164,6 +164,9 @@ def shapes(tier="quick", seed=0):
     add("two-tags", doc("TT", [op("/tt", "get", "getTt", ["Users", "admin"]), op("/tt2", "get", "getTt2", ["admin"])]), multi_tag=True)
     add("tag-spellings", doc("TS", [op("/ts1", "get", "one", ["Data Sources"]), op("/ts2", "get", "two", ["data-sources"]), op("/ts3", "get", "three", ["data_sources"])]), tag_variants=True)
     add("tag-majority-spelling", doc("TM", [op("/m1", "get", "one", ["datasources"]), op("/m2", "get", "two", ["datasources"]), op("/m3", "get", "three", ["DataSources"])]), tag_variants=True)
+    # tags spelled like members of the generated APIClient / MockAPIClient themselves
+    add("tag-member-names", doc("TMN", [op("/t1", "get", "one", ["Transport"]), op("/t2", "get", "two", ["request"]), op("/t3", "get", "three", ["Close"]),
+                                        op("/t4", "get", "four", ["config"]), op("/t5", "get", "five", ["Client"]), op("/t6", "get", "six", ["base_url"])]))
     add("opid-collisions", doc("OC", [op("/o1", "get", "list_all", ["o"]), op("/o2", "get", "listAll", ["o"]), op("/o3", "get", "list-all", ["o"]),
                                       op("/o4", "get", "get_a_2", ["o"]), op("/o5", "get", "get_a", ["o"]), op("/o6", "get", "get-a", ["o"])]), opid_collisions=True)
     add("opid-collision-overlapping-tags", doc("OT", [op("/t1", "get", "list_all", ["Users"]), op("/t2", "get", "listAll", ["Admin", "Users"]),
@@ -211,6 +214,11 @@ def shapes(tier="quick", seed=0):
                                   op("/tree", "get", "getTree", ["g"], [param("color", "query", ref("Color")), param("when", "query", PRIMS["date"])],
                                      responses={"200": resp_json(ref("Tree"))}),
                                   op("/n", "get", "getN", ["g"], responses={"200": resp_json(ref("Nullable")), "202": resp_json(ref("PetMap"))})], G), schemas=True)
+    # object models that refer to each other DIRECTLY through properties (two-cycle, required back edge, three-cycle)
+    MUT = {"Vertex": obj({"id": PRIMS["str"], "edge": ref("Edge")}, ["id"]), "Edge": obj({"target": ref("Vertex"), "weight": PRIMS["num"]}, ["target"]),
+           "Ping": obj({"pong": ref("Pong")}), "Pong": obj({"peng": ref("Peng")}), "Peng": obj({"ping": ref("Ping"), "n": PRIMS["int"]})}
+    add("mutual-object-refs", doc("MU", [op("/v", "get", "getVertex", ["mu"], responses={"200": resp_json(ref("Vertex"))}),
+                                         op("/p", "post", "postPing", ["mu"], None, body_json(ref("Ping")), {"200": resp_json(ref("Pong"))})], MUT), schemas=True)
     add("schema-graph-reordered", doc("G2", [op("/g", "get", "getG", ["g"], responses={"200": resp_json(ref("User"))})],
                                       dict(reversed(list(G.items())))), schemas=True)
     add("prefix-names-collisions", doc("PN", [op("/p", "get", "getP", ["p"], responses={"200": resp_json(ref("User"))})],
@@ -257,6 +265,26 @@ def shapes(tier="quick", seed=0):
         op("/k/any", "get", "getAny", ["k"], responses={"200": resp_json({})}),
         op("/k/owner", "put", "putOwner", ["k"], None, body_json(ref("Owner")), {"200": resp_json(ref("Owner")), "201": {"description": "created"}}),
     ], KINDS), response_kinds=True)
+    # every (type, format) pair of the OpenAPI format registry (and a made-up one) as property, named alias, array item, map value, query parameter and
+    # response: whatever Python type the generator picks for a format, the emitted modules must import it
+    fmts = {"string": ["date", "date-time", "time", "duration", "uuid", "byte", "binary", "email", "idn-email", "uri", "uri-reference", "iri", "url", "hostname",
+                       "ipv4", "ipv6", "password", "regex", "json-pointer", "decimal", "char", "html", "made-up"],
+            "integer": ["int32", "int64", "int8", "uint64", "made-up"], "number": ["float", "double", "decimal", "made-up"]}
+    fprops, fschemas, fops = {}, {}, []
+    for ty, fl in fmts.items():
+        for f in fl:
+            key = f"{ty}_{f}".replace("-", "_")
+            sch_ = {"type": ty, "format": f}
+            fprops[key] = sch_
+            fprops[key + "_list"] = {"type": "array", "items": sch_}
+            fprops[key + "_map"] = {"type": "object", "additionalProperties": sch_}
+            alias = "A" + "".join(w.capitalize() for w in key.split("_"))
+            fschemas[alias] = dict(sch_)
+            fprops[key + "_alias"] = ref(alias)
+            fops.append(op(f"/f/{key}", "get", f"get_{key}", ["f"], [param("v", "query", sch_)], responses={"200": resp_json(sch_)}))
+    fschemas["AllFormats"] = obj(fprops, [])
+    fops.append(op("/f", "get", "getFormats", ["f"], responses={"200": resp_json(ref("AllFormats"))}))
+    add("all-formats", doc("AF", fops, fschemas))
     # deterministic random documents (fixed seeds, vetted on the unchanged tree): breadth over feature combinations nobody thought of
     from props import randdoc
     for rs in ([1, 2, 3, 5, 8, 13, 21, 35] if tier == "quick" else list(range(1, 61))):
